@@ -832,4 +832,26 @@ theorem clockInv_reachable {s : WState} (h : WReachable s) : ClockInv s := by
   | init s hi => exact clockInv_init hi
   | step s l s' _ hs ih => exact clockInv_step ih hs
 
+
+/-! ## runs -/
+
+theorem wreachable_wrun {s s' : WState} {ls : List Label} (h : WReachable s) (hr : wrun s ls = some s') :
+    WReachable s' := by
+  induction ls generalizing s with
+  | nil => simp [wrun] at hr; subst hr; exact h
+  | cons l ls ih =>
+    simp only [wrun] at hr
+    split at hr
+    · rename_i s1 hs1
+      exact ih (WReachable.step s l s1 h hs1) hr
+    · simp at hr
+
+/-- a terminated state with nothing parked has no internal label enabled -/
+theorem quiescent_of_nothing_pending {s : WState} (hp : s.pending = []) (ht : s.term.isSome = true) :
+    WQuiescent s := by
+  intro l hl
+  cases l <;> simp [Label.internal] at hl
+  · simp [wstep, hp]
+  · simp [wstep, ht]
+
 end Remoc.Conn
